@@ -49,6 +49,19 @@ lengths, histories, entry points, spellings); each strengthening widened the gen
 by a multi-seed silence run on the unchanged tree.
 
 """
+retrial = ""
+rp = os.path.join(root, "seeded", "RETRIAL.md")
+if os.path.exists(rp):
+    lines = [l for l in open(rp).read().splitlines()[2:] if l.startswith("|")]
+    ok = sum(1 for l in lines if "| CAUGHT" in l)
+    rest = [l.split("|")[1].strip() + " (" + l.split("|")[3].strip()[:40] + ")" for l in lines if "| CAUGHT" not in l]
+    retrial = f"""**Regression over the whole archive.** Because the checks kept changing while the rounds went on,
+`scripts/retrial_all.sh` re-applies EVERY archived change to a private clone of /repo and runs the current
+owning quick check against it (4 lanes, about 1.5 h). Last run (after the tape change described in section 0):
+{ok} of {len(lines)} caught (`seeded/RETRIAL.md`); not caught: {", ".join(rest) if rest else "none"}
+(R5-C11-1 is the change neutralised by fix a24949c, see round 5 above).
+
+"""
 mut = ""
 mp = os.path.join(root, "mutations", "RESULTS.md")
 if os.path.exists(mp):
@@ -87,7 +100,7 @@ Every change was re-confirmed here (`scripts/verify_seeded.sh`), archived under 
 check. "first" is the outcome of the *first* trial, before any strengthening; the last column is the
 full trial history. Checks were strengthened wherever a change was missed (never loosened).
 
-""" + summary + """| change | what it does | first | trials |
+""" + summary + """""" + retrial + """| change | what it does | first | trials |
 |---|---|---|---|
 """ + "\n".join(rows) + "\n\n" + mut
 p = os.path.join(root, "DESIGN.md")
